@@ -90,6 +90,12 @@ static std::string run_hm(std::istringstream& is) {
 		case 'c': m.Clear(); r << m.mValueCount << " " << m.mValueCrew.GetValueVersion(); break;
 		case 'I': { auto km = find_movable((int)a[0]); if (!km || (size_t)a[1] >= km->GetCount()) { r << "skip"; break; }
 			saved = m.MakeIterator(km, (size_t)a[1]); haveSaved = true; r << "it"; break; }
+		case 'C': { if (!haveSaved) { r << "skip"; break; }      // CheckIterator -> VersionKeeper::Check(version, allowEmpty)
+			try { m.CheckIterator(saved, a.empty() || a[0] != 0); r << "ok"; } catch (const std::invalid_argument&) { r << "throw"; }
+			break; }
+		case 'E': { typename HM::ConstIterator none;                // an empty iterator: accepted iff allowEmpty
+			try { m.CheckIterator(none, a.empty() || a[0] != 0); r << "ok"; } catch (const std::invalid_argument&) { r << "throw"; }
+			break; }
 		case 'U': { if (!haveSaved) { r << "skip"; break; }
 			try { int64_t v = saved->value; (void)v; r << "ok"; } catch (const std::invalid_argument&) { r << "throw"; }
 			break; }
